@@ -33,9 +33,18 @@ def dict_results(prog: Program, model: Model, cfg: Config) -> List[Tuple[Path, D
         if p.outcome != "return":
             continue
         given: Dict[str, Optional[bool]] = {}
+        unified: Dict[str, str] = {}
         for k, t, b in p.facts:
             if isinstance(t, Term) and t.op == "in" and t.args[1].key() == "value":
                 given[t.args[0].key()] = b
+        # the other direction: a key taken from the value was unified with a declared key
+        for e in p.events:
+            if e.kind == "cond" and e.data.get("unified") is not None:
+                a = e.data["term"].args[0]
+                if isinstance(a, Sym) and a.origin and a.origin[0] == "key" and a.origin[1].key() == "value":
+                    given[e.data["unified"].key()] = True
+                    unified[a.key()] = e.data["unified"].key()
+        p.unified = unified  # type: ignore
         pr = result_props(p)
         tbl = pr.vals.get("keys") if pr is not None else None
         out.append((p, given, tbl if isinstance(tbl, DictV) else None))
@@ -123,6 +132,11 @@ def check(run: Run, prog: Program, model: Model, tier: str) -> None:
                 if given.get(k.key()) is True:
                     derived = (isinstance(gm, Sym) and gm.origin and gm.origin[0] == "accept" and gm.origin[1].key() == om.key()
                                and isinstance(gm.origin[2], Term) and gm.origin[2].op == "getitem" and gm.origin[2].args[1].key() == k.key())
+                    if not derived and isinstance(gm, Sym) and gm.origin and gm.origin[0] == "accept" and gm.origin[1].key() == om.key():
+                        va = gm.origin[2]
+                        if isinstance(va, Sym) and va.origin and va.origin[0] == "val" and va.origin[1].key() == "value" \
+                                and getattr(p, "unified", {}).get(va.origin[2].key()) == k.key():
+                            derived = True      # value.items(): the value paired with the key that was unified with k
                     placeholder = gm.key() == om.key()
                     if not (derived or placeholder):
                         probs.append(f"member of given key {k.key()} is {gm.key()[:40]}, not the substitution of value[{k.key()}] into {om.key()}")
@@ -199,6 +213,7 @@ def _list_cover(run: Run, prog: Program, model: Model, tier: str) -> None:
             run.undecided("LIST-COVER", construct, f.loc, "no returning path")
             continue
         probs: List[str] = []
+        undecided: List[str] = []
         for p in rets:
             pr = result_props(p)
             el = pr.vals.get("elements") if pr is not None else None
@@ -213,24 +228,47 @@ def _list_cover(run: Run, prog: Program, model: Model, tier: str) -> None:
                 args = c.data["args"]
                 n = len(args[1].items) if len(args) > 1 and isinstance(args[1], ListV) else None
                 start = args[2] if len(args) > 2 else c.data["kwargs"].get("start", Const(0))
-                loops = [e for e in p.events if e.kind == "loop" and e.func == se.qualname and e.nfacts >= c.nfacts] if se else []
-                ranges = [e.data["iterable"] for e in p.events if e.kind == "loop" and isinstance(e.data["iterable"], Term)
-                          and e.data["iterable"].op == "range" and e.func == (se.qualname if se else "")]
-                # concrete ranges (e.g. range(0)) do not emit loop events: collect range terms from call events instead
                 suffix_ok = prefix_ok = False
+                recognised = False
+                want_lo = [f"bin(+, {start.key()}, {n})"]
+                if isinstance(start, Const) and isinstance(start.value, int) and n is not None:
+                    want_lo.append(str(start.value + n))
                 for e in p.events:
-                    if e.func == (se.qualname if se else "") and e.kind in ("loop",):
-                        it = e.data["iterable"]
-                        if isinstance(it, Term) and it.op == "range":
-                            if len(it.args) == 2 and it.args[1].key() == "len(value)":
-                                lo = it.args[0].key()
-                                want = [f"bin(+, {start.key()}, {n})", str(n) if isinstance(start, Const) and start.value == 0 else None]
-                                if lo in want or (isinstance(start, Const) and lo == str(start.value + (n or 0))):
-                                    suffix_ok = True
-                            if len(it.args) == 1 and it.args[0].key() == start.key():
-                                prefix_ok = True
+                    if e.func != (se.qualname if se else "") or e.kind not in ("loop", "comp_iter") or e.nfacts < c.nfacts:
+                        continue
+                    it = e.data["iterable"]
+                    # for i in range(lo, len(value)) / range(start)
+                    if isinstance(it, Term) and it.op == "range":
+                        recognised = True
+                        if len(it.args) == 2 and it.args[1].key() == "len(value)" and it.args[0].key() in want_lo:
+                            suffix_ok = True
+                        if len(it.args) == 1 and it.args[0].key() == start.key():
+                            prefix_ok = True
+                    # for v in value[lo:] / value[:start]
+                    if isinstance(it, Term) and it.op == "slice" and it.args[0].key() == "value":
+                        recognised = True
+                        lo_, hi_ = it.args[1], it.args[2]
+                        if lo_.key() in want_lo and isinstance(hi_, Const) and hi_.value is None:
+                            suffix_ok = True
+                        if isinstance(lo_, Const) and lo_.value in (None, 0) and hi_.key() == start.key():
+                            prefix_ok = True
                 if isinstance(start, Const) and start.value == 0:
                     prefix_ok = True      # empty prefix
+                if not recognised and not (suffix_ok and prefix_ok):
+                    undecided.append("the construction of the out-of-window members is not in a recognised form")
+                    continue
+                # every out-of-window member must be inserted AT ITS OWN index
+                for e in p.events:
+                    if e.kind == "write" and e.func == (se.qualname if se else "") and e.data.get("how") == "method:insert":
+                        a = e.data.get("args", [])
+                        if len(a) == 2:
+                            pos, val = a
+                            src_idx = None
+                            o = getattr(val, "origin", None)
+                            if o and o[0] == "from_native" and isinstance(o[1], Term) and o[1].op == "getitem":
+                                src_idx = o[1].args[1]
+                            if src_idx is not None and pos.key() != src_idx.key():
+                                probs.append(f"the member taken from value[{src_idx.key()[:30]}] is inserted at position {pos.key()[:30]}")
                 if not suffix_ok:
                     probs.append("positions after the matched window are not all carried (no loop over range(start + n, len(value)))")
                 if not prefix_ok:
@@ -251,6 +289,8 @@ def _list_cover(run: Run, prog: Program, model: Model, tier: str) -> None:
         if probs:
             run.violated("LIST-COVER", construct, f.loc, "; ".join(sorted(set(probs)))[:300],
                          witness="(schema % [..]) does not pin every position of the given list")
+        elif undecided:
+            run.undecided("LIST-COVER", construct, f.loc, undecided[0])
         else:
             run.holds("LIST-COVER", construct, f.loc, f"{len(rets)} return paths carry every position of the value", nontrivial=True)
     run.floor("LIST-COVER", 30)
@@ -279,4 +319,10 @@ MUTANTS = [
      "edits": [(SU, "keys[key] = (val.__accept__(self, value=value[key], **kwargs), False)", "keys[key] = (val.__accept__(self, value=value, **kwargs), False)")]},
     {"name": "neutral: dict result built through a helper local", "expect": "SILENT",
      "edits": [(SU, "                        keys[key] = (val.__accept__(self, value=value[key], **kwargs), False)", "                        member = val.__accept__(self, value=value[key], **kwargs)\n                        keys[key] = (member, False)")]},
+]
+
+MUTANTS += [
+    {"name": "members after the window inserted at a fixed index (reversed)", "rule": "LIST-COVER",
+     "edits": [(SU, "        for i in range(start + len(substituted), len(value)):\n            substituted.insert(i, self._from_native(value[i]))",
+                "        end = start + len(substituted)\n        for i in range(end, len(value)):\n            substituted.insert(end, self._from_native(value[i]))")]},
 ]
